@@ -280,6 +280,20 @@ class C01(GenCheck):
             c = make_case(self.rng)
             if self.sane(c["expr"]):
                 out.append(c)
+        # directed, on their own stream: a register destination that the expression reads on BOTH sides of one operator, the left
+        # side being a compound expression (random trees reach this shape in one or two cases of 500)
+        import random
+        rng = random.Random(self.seed + 1101)
+        for i in range(30 if self.tier == "quick" else 400):
+            kind, no = rng.choice(["r", "sr", "w", "sw"]), rng.choice([2, 3, 4, 5])
+            R, B = ["r", kind, no], rng.choice([["v", "v0"], ["c", rng.randint(1, 9)]])
+            ops2 = ["+", "-", "*", "|", "^", "&"]
+            op, op2, op3 = rng.choice(ops2), rng.choice(ops2), rng.choice(ops2)
+            expr = rng.choice([[op, [op2, R, B], R], [op, [op2, B, R], R], [op, [op2, R, B], [op3, R, ["c", rng.randint(1, 5)]]],
+                               [op, [op2, R, B], [op3, ["v", "v0"], R]], [op, [op2, [op3, R, B], ["c", 3]], R]])
+            out.append({"decls": [("v0", rng.choice(["local", "array"]), rng.choice("BHIQbhiq")), ("d", "local", "Q")],
+                        "values": {"v0": rng.randint(0, 100), "d": 0}, "reginit": {no: rng.randint(2, 60)}, "regs": [(kind, no)],
+                        "expr": expr, "dest": "d", "regdest": [kind, no]})
         return out
 
     @staticmethod
